@@ -75,6 +75,26 @@ CHECKS = {
               "exhaustive tiny-field assignment search of DESIGN decision 1 and the vector/map gadgets are not built."),
         technique="TLA+/TLC-computed definitions over a toy field + replay of the real generic gadgets with consistent tamper plans, validated by a trace spec",
     ),
+    "C05": dict(
+        category="fault_enumeration",
+        text=("ForeignOps.tla gives, over BigNat (arbitrary-size naturals for TLC), the meaning of every FieldChip operation on "
+              "the five deployed emulated fields (secp256k1 base and scalar, BLS12-381 base, Curve25519 base and scalar over the "
+              "BLS12-381 scalar field) and of every BigUintGadget operation, with the public-input encodings of emulated "
+              "elements and big integers. MC_ForeignOps enumerates scenarios (field x operation x boundary operand classes "
+              "{0, 1, 2, m-1, m-2, 2^LB-1, 2^LB, 2^LB+1, all-ones limbs, (m+-1)/2, ...} incl. chains that leave elements "
+              "un-normalised; big integers over widths 1..2048 bits) and checks Decode(Encode(x)) = x and canonicity on every "
+              "operand. The driver replays them into the real chips on the deployed native field under MockProver with inputs "
+              "and outputs exposed as public inputs; what the circuit ITSELF exposes is extracted from its copy constraints. "
+              "Foreign_Trace decides completeness (in-domain honest runs satisfiable with exactly Encode(ins, Def(ins))) and "
+              "soundness (satisfiable with an instance that encodes typed values => ins in domain and outs = Def(ins)) for "
+              "every run, also under tamper plans (hook H1: one advice assignment replaced consistently; faults +1, -1, 0, "
+              "+2^LB, random, spread over the assignments of the operation)."),
+        design_ref="DESIGN.md 4/C05",
+        note=("Bounded adversary (single consistent fault per run, sampled assignment indices on quick); satisfiability judged "
+              "by MockProver; parameter sets compiled in for the deployed native field only (bn256 dev-curves not covered); "
+              "BigNat evaluated through a Java override whose agreement with the TLA+ definitions is self-tested."),
+        technique="TLA+/TLC: ForeignOps over BigNat generates scenarios, recorded gadget runs (honest and tampered via H1) validated as traces",
+    ),
     "C09": dict(
         category="model_checking",
         text=("Self-composition on recorded builder runs: every circuit is synthesised through a hook-free recording "
